@@ -17,6 +17,7 @@ import EsbuildModel.Impl.Ctx
 import EsbuildModel.Impl.Lower
 import EsbuildModel.Impl.ChunkHash
 import EsbuildModel.Impl.Order
+import EsbuildModel.Impl.Stdio
 
 open EsbuildModel
 
@@ -41,6 +42,7 @@ def dispatch (kernel : String) (args : List String) : String :=
   | "lower" => Lower.driver args
   | "chunkhash" => ChunkHash.driver args
   | "order" => Order.driver args
+  | "stdio" => Stdio.driver args
   | _ => "bad-kernel"
 
 partial def loop (hin hout : IO.FS.Stream) : IO Unit := do
